@@ -8,6 +8,7 @@ import (
 	"os"
 	"path/filepath"
 	"runtime"
+	"runtime/pprof"
 	"sort"
 	"strconv"
 	"strings"
@@ -150,7 +151,13 @@ func main() {
 	noReplay := flag.Bool("noreplay", false, "skip native replay (development only; exit code 3)")
 	trace := flag.Bool("trace", false, "trace calls")
 	flag.StringVar(&verifDir, "verif", "/verif", "verif dir")
+	cpuprof := flag.String("cpuprofile", "", "write cpu profile")
 	flag.Parse()
+	if *cpuprof != "" {
+		f, _ := os.Create(*cpuprof)
+		pprof.StartCPUProfile(f)
+		defer pprof.StopCPUProfile()
+	}
 	if t := os.Getenv("VERIF_TIER"); t != "" && !isFlagSet("tier") {
 		*tier = t
 	}
@@ -214,6 +221,7 @@ func main() {
 		w.solver.Close()
 	}
 	code := report(&cc, *tier, seed, res, ran, *noReplay, loadS, time.Since(t0).Seconds(), p)
+	pprof.StopCPUProfile()
 	os.Exit(code)
 }
 
